@@ -44,7 +44,13 @@ pub struct SimHooks {
     pub shared: Arc<Shared>,
     pub sched: Option<Arc<Sched>>,
     pub op: Mutex<OpState>,
+    /// consecutive write-retry switch points seen without a scheduler (seq engine / main thread)
+    pub retries: std::sync::atomic::AtomicU64,
 }
+
+/// Payload marker of the panic raised when an operation spins in the write-retry loop.
+pub const RETRY_LIVELOCK: &str = "mmsim-write-retry-livelock";
+pub const RETRY_LIMIT: u64 = 300_000;
 
 impl SimHooks {
     pub fn new(tid: usize, shared: Arc<Shared>, sched: Option<Arc<Sched>>) -> Arc<SimHooks> {
@@ -53,10 +59,12 @@ impl SimHooks {
             shared,
             sched,
             op: Mutex::new(OpState::default()),
+            retries: std::sync::atomic::AtomicU64::new(0),
         })
     }
 
     pub fn begin_op(&self, f: Faults) {
+        self.retries.store(0, std::sync::atomic::Ordering::Relaxed);
         *self.op.lock().unwrap() = OpState {
             faults: f,
             ..Default::default()
@@ -82,6 +90,13 @@ impl Hooks for SimHooks {
     fn sp(&self, site: &'static str) {
         if let Some(s) = &self.sched {
             s.switch_point(self.tid, site);
+        } else if site == "write.retry" {
+            // Without a scheduler nobody else can make room: an operation that keeps
+            // retrying is livelocked (C09). Unwind instead of hanging the worker.
+            let n = self.retries.fetch_add(1, std::sync::atomic::Ordering::Relaxed);
+            if n > RETRY_LIMIT {
+                panic!("{}", RETRY_LIVELOCK);
+            }
         }
     }
 
